@@ -7,7 +7,8 @@
 From Coq Require Import NArith ZArith List.
 From SW Require gen.Consts.
 From SW Require model.Needle model.EcIndex model.NeedleMap model.Seq model.TopoPlace
-                model.EcBalance model.Ttl model.VolumeCrash.
+                model.EcBalance model.Ttl model.VolumeCrash model.Codecs model.EC.
+Import ListNotations.
 Local Open Scope N_scope.
 
 Example tie_needle_sizes :
@@ -61,3 +62,45 @@ Example tie_ttl_units :
   Ttl.SUPER_BLOCK_SIZE = Consts.SuperBlockSize /\
   Ttl.MAX_TTL_VOLUME_REMOVAL_DELAY = Consts.MaxTtlVolumeRemovalDelay.
 Proof. repeat split; reflexivity. Qed.
+
+(* ---- added in session 3: literals reported by the per-property audits ---- *)
+
+(* C08: offset width -> largest volume; TTL unit letters -> stored unit codes *)
+Example tie_codecs_offsets :
+  Codecs.max_volume_size Consts.OffsetSize = Consts.MaxPossibleVolumeSize /\
+  Codecs.off_limit Consts.OffsetSize * Consts.NeedlePaddingSize = Consts.MaxPossibleVolumeSize.
+Proof. repeat split; reflexivity. Qed.
+
+Example tie_codecs_ttl_letters :
+  Codecs.to_stored_byte 109 = Consts.TtlUnitCodeMinute /\ Codecs.to_stored_byte 104 = Consts.TtlUnitCodeHour /\
+  Codecs.to_stored_byte 100 = Consts.TtlUnitCodeDay /\ Codecs.to_stored_byte 119 = Consts.TtlUnitCodeWeek /\
+  Codecs.to_stored_byte 77 = Consts.TtlUnitCodeMonth /\ Codecs.to_stored_byte 121 = Consts.TtlUnitCodeYear.
+Proof. repeat split; reflexivity. Qed.
+
+(* C13: bit layout of a snowflake id (github.com/bwmarrin/snowflake NodeBits / StepBits) *)
+Example tie_snowflake_layout :
+  Seq.sf_id 1 0 0 = 2 ^ (Consts.SnowflakeNodeBits + Consts.SnowflakeStepBits) /\
+  Seq.sf_id 0 1 0 = 2 ^ Consts.SnowflakeStepBits /\
+  Seq.sf_nodes_ok [2 ^ Consts.SnowflakeNodeBits - 1] = true /\
+  Seq.sf_nodes_ok [2 ^ Consts.SnowflakeNodeBits] = false /\
+  (* the step counter rolls over at 2^StepBits *)
+  snd (Seq.sf_generate 0 {| Seq.sf_time := 5; Seq.sf_step := 2 ^ Consts.SnowflakeStepBits - 2 |} 5 6) =
+    Seq.sf_id 5 0 (2 ^ Consts.SnowflakeStepBits - 1) /\
+  snd (Seq.sf_generate 0 {| Seq.sf_time := 5; Seq.sf_step := 2 ^ Consts.SnowflakeStepBits - 1 |} 5 6) =
+    Seq.sf_id 6 0 0.
+Proof. repeat split; reflexivity. Qed.
+
+(* C07/C06: the record span used by the decode+mount model = needle.GetActualSize(size, Version3),
+   obtained by CALLING the function in constgen on sample sizes around the padding boundaries *)
+Example tie_record_span :
+  EcIndex.dm_span 0 = Consts.ActualSizeV3_0 /\ EcIndex.dm_span 1 = Consts.ActualSizeV3_1 /\
+  EcIndex.dm_span 3 = Consts.ActualSizeV3_3 /\ EcIndex.dm_span 4 = Consts.ActualSizeV3_4 /\
+  EcIndex.dm_span 5 = Consts.ActualSizeV3_5 /\ EcIndex.dm_span 11 = Consts.ActualSizeV3_11 /\
+  EcIndex.dm_span 12 = Consts.ActualSizeV3_12 /\ EcIndex.dm_span 13 = Consts.ActualSizeV3_13 /\
+  EcIndex.dm_span 100 = Consts.ActualSizeV3_100 /\ EcIndex.dm_span 4095 = Consts.ActualSizeV3_4095.
+Proof. repeat split; reflexivity. Qed.
+
+(* C06: the shard counts written as literals in model/EC.v *)
+Example tie_ec_model_counts : forall dat L S buf D,
+  Z.of_nat (length (EC.data_shards dat L S buf D)) = Consts.DataShardsCount_Z.
+Proof. intros. reflexivity. Qed.
